@@ -18,6 +18,7 @@ BINARY = ["add", "subtract", "multiply", "floor_divide", "divide", "remainder", 
           "less", "less_equal", "greater", "greater_equal", "equal", "not_equal", "logical_and", "logical_or",
           "isclose", "allclose", "power", "outer", "inner"]
 REDUCE = ["sum", "prod", "mean", "cumsum", "amax", "amin", "max", "min", "argmax", "argmin", "any", "all", "count_nonzero"]
+METHODS = {"sum", "prod", "mean", "cumsum", "amax", "amin", "max", "min", "any", "all", "around", "round", "transpose"}
 INDEX_RESULT = {"argmax", "argmin", "nonzero", "count_nonzero", "less", "less_equal", "greater", "greater_equal", "equal",
                 "not_equal", "logical_and", "logical_or", "isclose", "allclose", "isfinite", "any", "all"}
 
@@ -73,6 +74,8 @@ def one_trace(rng, tid, prop):
             p = {}
             if fn in ("around", "round"):
                 p = {"decimals": rng.choice([0, 1, -1])}
+            if fn in METHODS and rng.random() < 0.35:
+                sp = "method"
             rec.do("constfn", [a], keep=False, fn=fn, p=p, spelling=sp, index_result=fn in INDEX_RESULT, np=[], np_out="ret")
         elif c < 0.6:
             fn = rng.choice(BINARY)
@@ -99,6 +102,11 @@ def one_trace(rng, tid, prop):
                 p["axis"] = rng.sample(range(nd), 2)
             if fn not in ("argmax", "argmin", "cumsum") and rng.random() < 0.3:
                 p["keepdims"] = True
+            if fn in ("sum", "prod", "mean", "cumsum") and rng.random() < 0.2:
+                # an accumulator dtype that does not round the small values used here (C11 claims values, not the dtype)
+                p["dtype"] = rng.choice(["float64", "complex128"] + (["int64"] if kind == "int" and fn != "mean" else []))
+            if fn in METHODS and rng.random() < 0.35:
+                sp = "method"
             rec.do("constfn", [a], keep=False, fn=fn, p=p, spelling=sp, index_result=fn in INDEX_RESULT, np=[], np_out="ret")
         else:
             # numeric division by a non-constant polynomial must be refused
